@@ -10,7 +10,10 @@ from .common import enc_list, Toks
 
 RULE = ('all digraphs (self-loops allowed) on n<=3 vertices x all vertex insertion orders x 2 successor orders '
         '(thorough: n=4 x 2 insertion orders) + seeded random digraphs on 5..12 vertices + nonterminal graphs of '
-        'random HRGs; non-trivial = has at least one edge between distinct vertices')
+        'random HRGs; vertices of five kinds in rotation (small ints, run-time strings, tuples, large ints, value-equal objects: EQUAL BUT '
+        'DISTINCT objects at every occurrence); histories sum_products / edit the grammar (new rule-less nonterminal, new start symbol, '
+        'new nonterminal edge in an existing right-hand side, new rule) / sum_products on the same object, compared with a freshly built '
+        'grammar; non-trivial = has at least one edge between distinct vertices')
 ASSUMPTIONS = ['Python recursion limit (deep chains) is not exhibited by the fuelled model',
                'the forall-theorem for the Tarjan model itself is not proved; the contract is decided per output by the proved-sound decider']
 
@@ -20,30 +23,57 @@ def enc_graph(order, adj):
     return enc_list(order, lambda v: f'{v} {enc_list(adj[v])}')
 
 
-def check_graph(ctx, order, adj, batch):
-    g = {v: {w: None for w in adj[v]} for v in order}
-    comps = [list(c) for c in scc(g)]
+class V:
+    """a hashable vertex compared by value: two V(3) are equal and distinct objects"""
+    __slots__ = ('i',)
+    def __init__(self, i): self.i = i
+    def __eq__(self, o): return isinstance(o, V) and o.i == self.i
+    def __hash__(self): return hash(('V', self.i))
+    def __repr__(self): return f'V({self.i})'
+
+
+# vertex kinds: small ints are shared objects; the others are EQUAL BUT DISTINCT objects at every occurrence (key of the
+# adjacency mapping, key of every successor mapping), as the EdgeLabels of a grammar written with new_edge/new_rule are
+WRAP = [
+    (lambda i: i, lambda x: x),
+    (lambda i: 'v' + str(i), lambda x: int(x[1:])),
+    (lambda i: tuple([i, i]), lambda x: x[0]),
+    (lambda i: 100000 + i, lambda x: x - 100000),
+    (lambda i: V(i), lambda x: x.i),
+]
+_kind = [0]
+
+
+def check_graph(ctx, order, adj, batch, kind=None):
+    if kind is None:
+        _kind[0] = (_kind[0] + 1) % len(WRAP)
+        kind = _kind[0]
+    wrap, unwrap = WRAP[kind]
+    ctx.count(f'vertex-kind={kind}')
+    g = {wrap(v): {wrap(w): None for w in adj[v]} for v in order}
+    comps = [[unwrap(x) for x in c] for c in scc(g)]
     e = enc_graph(order, adj)
-    batch.append((order, adj, comps, f'C19.scc {e}', f'C19.ok {e} {enc_list(comps, enc_list)}'))
+    batch.append((order, adj, comps, kind, f'C19.scc {e}', f'C19.ok {e} {enc_list(comps, enc_list)}'))
 
 
 def flush(ctx, batch):
-    reqs = [x for b in batch for x in (b[3], b[4])]
+    reqs = [x for b in batch for x in (b[4], b[5])]
     reps = ctx.driver.ask_many(reqs)
-    for i, (order, adj, comps, _, _) in enumerate(batch):
+    for i, (order, adj, comps, kind, _, _) in enumerate(batch):
         r1, r2 = reps[2 * i], reps[2 * i + 1]
         if isinstance(r1, Exception): raise r1
         if isinstance(r2, Exception): raise r2
         t = Toks(r1)
         model = t.list(lambda: t.list(t.nat))
         wf, ok = r2.split()
-        case = dict(order=order, adj={str(k): v for k, v in adj.items()})
+        case = dict(order=order, adj={str(k): v for k, v in adj.items()}, vertex_kind=kind)
         nontriv = any(w != v for v in order for w in adj[v])
         ctx.case(dict(graph=case, scc=comps), (tuple(order), tuple((v, tuple(adj[v])) for v in order)) if nontriv else None,
                  sample_every=1009)
         ctx.count(f'n={len(order)}')
         ctx.count(f'ncomps={len(comps)}')
-        py = f'from fggs.utils import scc; print(scc({ {v: {w: None for w in adj[v]} for v in order} !r}))'
+        py = (f'from fggs.utils import scc; print(scc({ {v: {w: None for w in adj[v]} for v in order} !r}))'
+              + (f'  # with vertices of kind {kind} (harness/c19.py WRAP): equal but distinct objects' if kind else ''))
         if wf != 'T':
             raise RuntimeError(f'generator produced an ill-formed graph {case}')
         if ok != 'T':
@@ -88,6 +118,7 @@ def run(ctx):
         check_graph(ctx, order, adj, batch)
     flush(ctx, batch)
     run_ntgraph(ctx)
+    run_history(ctx)
 
 
 def run_ntgraph(ctx):
@@ -153,12 +184,137 @@ def run_ntgraph(ctx):
             ctx.disagree('Impl.nonterminalGraph vs fggs.utils.nonterminal_graph', case, impl, model)
 
 
+# ------------------------------------------------------------------ histories: compute, edit the grammar, compute again
+
+def _apply_mut(shape, fgg, info, mut):
+    """apply one edit both to the shape (from which a FRESH grammar is built) and to the LIVE grammar object"""
+    from fggs import Node, Edge, EdgeLabel, HRGRule, Graph
+    kind = mut[0]
+    NL, XL, TL = info['NL'], info['XL'], info['TL']
+    if kind in ('newnt', 'start'):
+        ty = mut[1]
+        shape['nts'].append(list(ty))
+        el = EdgeLabel(gen.nt_name(len(XL)), [NL[l] for l in ty], is_nonterminal=True)
+        XL.append(el)
+        if kind == 'newnt':
+            fgg.add_edge_label(el)
+        else:
+            shape['start'] = len(XL) - 1
+            fgg.start = el
+    elif kind == 'edge':
+        _, ri, j = mut
+        r = shape['rules'][ri]
+        att = []
+        live = info['rules'][ri]
+        nodes = []
+        for l in shape['nts'][j]:
+            r['nodes'].append(l); att.append(len(r['nodes']) - 1)
+            nd = Node(NL[l]); live['rule'].rhs.add_node(nd); live['nodes'][att[-1]] = nd; nodes.append(nd)
+        r['edges'].append(('n', j, att))
+        live['rule'].rhs.add_edge(Edge(XL[j], nodes))
+    elif kind == 'rule':
+        _, i, tis = mut          # a rule X_i -> (externals of X_i's type, attached to nothing) t.. (terminal edges on fresh nodes)
+        ty = shape['nts'][i]
+        r = dict(lhs=i, nodes=list(ty), ext=list(range(len(ty))), edges=[])
+        rhs = Graph()
+        nodes = {}
+        for v, l in enumerate(ty):
+            nodes[v] = Node(NL[l]); rhs.add_node(nodes[v])
+        for ti in tis:
+            att = []
+            for l in shape['terms'][ti]:
+                r['nodes'].append(l); v = len(r['nodes']) - 1; att.append(v)
+                nodes[v] = Node(NL[l]); rhs.add_node(nodes[v])
+            r['edges'].append(('t', ti, att))
+            rhs.add_edge(Edge(TL[ti], [nodes[v] for v in att]))
+        rhs.ext = [nodes[v] for v in r['ext']]
+        rule = HRGRule(XL[i], rhs)
+        shape['rules'].append(r)
+        fgg.add_rule(rule)
+        info['rules'].append(dict(index=len(shape['rules']) - 1, rule=rule, nodes=nodes, edges={}))
+
+
+def _sp_by_name(fgg):
+    import torch
+    sp = fggs.sum_products(fgg, semiring=fggs.RealSemiring(dtype=torch.float64))
+    return {el.name: v.to_dense().to(torch.float64) for el, v in sp.items() if el.is_nonterminal}
+
+
+def history_case(ctx, shape0, muts):
+    """sum_products, then each edit followed by sum_products on the SAME grammar object: after every step every nonterminal of the
+    grammar has a value, equal to the one computed on a grammar freshly built from the edited description (the dependency order is
+    that of the grammar as it is now, not as it was at the first call)"""
+    import copy, torch
+    shape = copy.deepcopy(shape0)
+    case = dict(stream='history', shape=shape0, edits=[list(m) for m in muts])
+    fgg, info = gen.build_fgg(copy.deepcopy(shape))
+    ctx.case(case, ('history', repr(shape0), repr(muts)), sample_every=50)
+    ctx.count('history')
+    for step in range(len(muts) + 1):
+        if step:
+            _apply_mut(shape, fgg, info, muts[step - 1])
+            ctx.count(f'history.{muts[step - 1][0]}')
+        try:
+            live = _sp_by_name(fgg)
+        except Exception as ex:  # noqa
+            ctx.fail(f'sum_products raised {type(ex).__name__} after the edits {muts[:step]}: {str(ex)[:80]}', case, repr(ex), None,
+                     tags=['history', 'raises'])
+            return
+        fresh_fgg, _ = gen.build_fgg(copy.deepcopy(shape))
+        fresh = _sp_by_name(fresh_fgg)
+        want_names = {gen.nt_name(i) for i in range(len(shape['nts']))}
+        if set(live) != want_names:
+            ctx.fail(f'after the edits {muts[:step]} some nonterminal has no value', case, sorted(live), sorted(want_names),
+                     tags=['history', 'no-value'])
+            return
+        for name in sorted(want_names):
+            a, b = live[name], fresh[name]
+            if a.shape != b.shape or not torch.allclose(a, b, rtol=1e-9, atol=1e-12, equal_nan=True):
+                ctx.fail(f'after the edits {muts[:step]} the value of {name} differs from the one computed on a freshly built grammar',
+                         case, a.tolist(), b.tolist(), tags=['history', 'stale-order'])
+                return
+
+
+def run_history(ctx):
+    for k in range(40 if ctx.quick else 600):
+        shape = gen.random_shape(ctx.rng, recursive=False, n_nts=(2, 4), p_ruleless=0.3, n_nodes=(0, 2), n_edges=(0, 3),
+                                 weights=lambda r: r.choice([0.25, 0.5, 1.0, 2.0]), max_cells=300)
+        muts = []
+        nnts = len(shape['nts'])
+        nrules = len(shape['rules'])
+        ruleless = [i for i in range(nnts) if not any(r['lhs'] == i for r in shape['rules'])]
+        for _ in range(ctx.rng.randint(1, 3)):
+            c = ctx.rng.random()
+            if c < 0.3:
+                muts.append(('newnt', [ctx.rng.randrange(len(shape['nls'])) for _ in range(ctx.rng.randint(0, 2))])); nnts += 1
+                ruleless.append(nnts - 1)
+            elif c < 0.4:
+                muts.append(('start', [])); nnts += 1; ruleless.append(nnts - 1)
+            elif c < 0.75:
+                # a new nonterminal edge in an existing right-hand side (rank order kept: X_i only uses X_j, j > i)
+                cands = [(ri, j) for ri in range(nrules) for j in range(shape['rules'][ri]['lhs'] + 1, nnts)
+                         if ri < len(shape['rules'])]
+                if cands:
+                    ri, j = ctx.rng.choice(cands)
+                    muts.append(('edge', ri, j))
+            elif ruleless:
+                i = ctx.rng.choice(ruleless)
+                muts.append(('rule', i, [ctx.rng.randrange(len(shape['terms'])) for _ in range(ctx.rng.randint(0, 2))]))
+        if muts:
+            history_case(ctx, shape, muts)
+
+
 def replay(ctx, rep):
     inp = rep['input']
     if 'order' in inp:
         batch = []
-        check_graph(ctx, inp['order'], {int(k): v for k, v in inp['adj'].items()}, batch)
+        check_graph(ctx, inp['order'], {int(k): v for k, v in inp['adj'].items()}, batch, kind=inp.get('vertex_kind', 0))
         flush(ctx, batch)
+    elif inp.get('stream') == 'history':
+        sh = inp['shape']
+        if isinstance(sh.get('weights'), dict):
+            sh['weights'] = {int(k): v for k, v in sh['weights'].items()}
+        history_case(ctx, sh, [tuple(m) for m in inp['edits']])
     else:
         run(ctx)
     return bool(ctx.failures or ctx.disagreements)
